@@ -266,13 +266,17 @@ def main_source(case, extra_sites=()):
             pad = int(case.get("pad", 0)) if n == 0 else 0
             al = int(case.get("align", 8)) if n == 0 else 8
             padtxt = f"    .skip {pad}\n" if pad else ""
+            altxt = f".balign {al}\n" if al > 1 else ""
+            tail = "    .long 0x5a5a5a5a\n    .quad 0\n" if R["dirv"].startswith(".long") else "    .quad 0x5a5a5a5a5a5a5a5a\n"
             datasec += f"""{sec}
-.balign 8
-.ascii "{mk(mkname)}"
+{altxt}.ascii "{mk(mkname)}"
 {padtxt}{label}: {R['dirv'].format(S=s, A=As)}
-    .quad 0
-"""
+{tail}"""
             code = R["load"].replace("site(", f"{label}(")
+            if R["dirv"].startswith(".long"):
+                # the 4 bytes after a 32-bit field must survive loading (an 8-byte dynamic relocation
+                # applied to a 4-byte field overwrites them)
+                code = f"    cmpl $0x5a5a5a5a, {label}+4(%rip)\n    jne 8f\n" + code
             body += f"    # site {n}: {ref}\n" + code
         else:
             body += f"""    jmp 9f
@@ -314,10 +318,15 @@ _start:
 DRIVER = NOTE + """.text
 .globl _start
 _start:
+    mov %fs:0, %rax
+    lea drv_tls@tpoff(%rax), %rax
     call vt_main@PLT
     mov %eax, %edi
     mov $60, %eax
     syscall
+.section .tdata,"awT",@progbits
+.balign 16
+drv_tls: .quad 0x7777, 0x7778, 0x7779
 """
 
 
@@ -326,7 +335,18 @@ class Toolbox:
 
     def __init__(self, d):
         self.d = Path(d)
+        if (self.d / "ready").exists():          # built by another process of this run
+            self.helper = self.d / "libvth.so"
+            self.driver = self.d / "driver.o"
+            self.shift_w = self.d / "shift_w.o"
+            self.shift_r = self.d / "shift_r.o"
+            self.defs = {k: self.d / f"defs_{k}.o" for k in SYMS}
+            return
         self.d.mkdir(parents=True, exist_ok=True)
+        (self.d / "shift_w.s").write_text(NOTE + '.section .data.site,"aw",@progbits\n.byte 0x5a\n')
+        (self.d / "shift_r.s").write_text(NOTE + '.section .rodata.site,"a",@progbits\n.byte 0x5a\n')
+        self.shift_w = assemble(self.d / "shift_w.s")
+        self.shift_r = assemble(self.d / "shift_r.s")
         (self.d / "helper.s").write_text(helper_source())
         assemble(self.d / "helper.s")
         r = sh(["ld", "-shared", "-o", self.d / "libvth.so", "-soname", "libvth.so", "--hash-style=both",
@@ -339,6 +359,7 @@ class Toolbox:
             p = self.d / f"defs_{k}.s"
             p.write_text(defs_source(k))
             self.defs[k] = assemble(p)
+        (self.d / "ready").write_text("ok")
 
 
 def link_args(case, objs, outpath, tb, linker="wild"):
@@ -380,7 +401,7 @@ def link_args(case, objs, outpath, tb, linker="wild"):
     if needs_helper:
         a += [str(tb.helper)]
         if tga and info["cls"] == "tls":
-            a += [LDSO]
+            a += [LDSO, f"{LIBDIR}/libc.so.6"]      # __tls_get_addr lives in ld.so, which needs libc
     a += post
     a += ["-o", str(outpath)]
     return a
@@ -396,7 +417,12 @@ def build_case(case, d, tb):
     for r in [case["ref"]] + list(case.get("extra", ())):
         flags += REFS[r].get("asflags", [])
     o = assemble(p, extra=flags)
-    return [o, tb.defs[case["sym"]]]
+    objs = [o, tb.defs[case["sym"]]]
+    if case.get("shift"):
+        # a 1-byte, 1-aligned contribution to the site's output section ahead of it: with align=1
+        # the site's section then starts at an odd address
+        objs.insert(0, tb.shift_w if case.get("secw", True) else tb.shift_r)
+    return objs
 
 
 def link_case(case, objs, d, tb, linker="wild", name=None):
@@ -417,7 +443,8 @@ def link_case(case, objs, d, tb, linker="wild", name=None):
 def link_driver(case, libpath, d, tb):
     """For shared outputs: an executable (GNU ld) that calls vt_main in the library under test."""
     exe = Path(libpath).parent / "driver"
-    r = sh(["ld", "-o", exe, tb.driver, libpath, tb.helper, "-dynamic-linker", LDSO, "--allow-shlib-undefined"],
+    r = sh(["ld", "-o", exe, tb.driver, libpath, tb.helper, "-dynamic-linker", LDSO, "--allow-shlib-undefined",
+            "-rpath-link", str(Path(libpath).parent)],
            timeout=60)
     if r.rc != 0:
         return None, r
@@ -490,7 +517,7 @@ def observe_case(case, outpath, tb, d, which=1):
     if case["out"] == "shared":
         # driver is a non-PIE executable at its link-time base; the library under test gets the base
         bases = [0, 0x7f1234567000 if which else 0x20000000, 0x7f1250653000]
-    pr = Process(paths, bases).relocate()
+    pr = Process(paths, bases, builtins={"__tls_get_addr": 0x7ffff7fd0000}).relocate()
     tm = pr.mods[ti]                        # module under test
     info = SYMS[case["sym"]]
     s = info["sym"]
@@ -509,6 +536,8 @@ def observe_case(case, outpath, tb, d, which=1):
             P += 7          # `call 7f; jmp 6f` precede the jmp *GOT
     dec = decode_x86_site(pr, case["ref"], P, P2)
     facts = []
+    if R["site"] == "D" and R["dirv"].startswith(".long"):
+        facts.append({"formula": "S+A", "lhs": pr.u32(P + 4), "S": 0x5a5a5a5a, "A": 0, "what": "neighbour"})
     ident_ok = None
     cls = info["cls"]
     # ---- expected S
